@@ -8,6 +8,9 @@
          no interior-mutable statics
   C12-c  well-formed command stream (T-STATE {Closed, Open}) over OutlinePen calls in to_path / contour_to_path /
          PendingState::{emit, finish}
+  C12-d  a buffer of the advertised size suffices (T-AGREE): per (hinted, has_variations) case the bytes carved by
+         FreeTypeOutlineMemory::new / HarfBuzzOutlineMemory::new are <= the linear form required_buffer_size() advertises, the
+         carving order is non-increasing in alignment and the advertised slack covers the largest alignment
   C12-e  hinting locations come from LocationRef::effective_coords() (the all-zero location is normalised in one place)
 """
 import re
@@ -240,7 +243,7 @@ def run_config(chk, facts, cfg):
     for p, fname, fty in hits:
         chk.ob("C12-b", f"interior mutability: {p}.{fname}: {fty[:80]}", p in allowed, key=f"interior|{p}|{fname}",
                detail="shared draw state with interior mutability can make results depend on glyph history / thread interleaving")
-    if "autohint" in " ".join(seen):
+    if any(p_ in allowed for p_, _, _ in hits):
         # the memo: write() only in the getter; Lazy constructed only in lazy()
         writers = set()
         for b in facts.all_bodies("skrifa"):
@@ -342,6 +345,9 @@ def run_config(chk, facts, cfg):
     pen_check(t2p, "Closed", "Closed", {c2p.path: ("contour",)})
     chk.floor("C12-c", "OutlinePen call sites seen", total_events[0], 8)
 
+    # ---- C12-d -----------------------------------------------------------------------------------
+    check_buffer_agreement(chk, facts)
+
     # ---- C12-e -----------------------------------------------------------------------------------
     chk.rule("C12-e", "T-WHO: raw LocationRef::coords() is read only where confirmed; hinting/drawing configuration goes through "
                       "effective_coords(), which drops an all-zero location")
@@ -370,3 +376,152 @@ def run_config(chk, facts, cfg):
         chk.ob("C12-e", f"{n.split('::', 2)[-1]} uses effective_coords()", n in eff_users, key=f"eff|{n}",
                detail="the hinting instance must normalise the location the same way the unhinted draw path does")
     chk.floor("C12-e", "callers of effective_coords()", len(eff_users), 3)
+
+
+def check_buffer_agreement(chk, facts):
+    from ..linform import LinEval, f_add, f_scale
+    chk.rule("C12-d", "T-AGREE: for each (hinted, has_variations) case, sum(size_of::<T>() * count) carved by the memory constructors "
+                      "<= the linear form returned by Outline::required_buffer_size; carve order non-increasing in alignment; slack >= max alignment")
+    req = chk.anchor("C12-d", "Outline::required_buffer_size", facts.body("skrifa::outline::glyf::outline::Outline::<'_>::required_buffer_size"))
+    sizes = {}
+    for c in facts.crates:
+        for r in facts.records("cgnode", c):
+            if r.get("targs") and r["path"].endswith("::alloc_slice"):
+                for ty, sz, al in r["targs"]:
+                    sizes[ty] = (sz, al)
+    chk.floor("C12-d", "element types carved by alloc_slice", len(sizes), 5)
+
+    def label_edge(body, t, tgt):
+        e = expr_of(body, t.d[1])
+        s = show(body, e)
+        name = None
+        if e[0] == "bin" and e[1] in ("Ne", "Eq") and e[3][0] == "const" and e[3][2] == 0 and body.local_name(body.root_local(t.d[1]) or 0) != "?" \
+                and "size" in s:
+            name = "NZ" if e[1] == "Ne" else "Z"
+        elif "has_variations" in s and "discr" not in s:
+            name = "V"
+        else:
+            l = body.root_local(t.d[1])
+            if l is not None and body.local_name(l) in ("hinting", "hinted"):
+                name = "H"
+        if name is None:
+            return None
+        for v, b2 in t.d[2]:
+            if b2 == tgt:
+                return (name, int(v) != 0)
+        return (name, True) if tgt == t.d[3] and len(t.d[2]) == 1 and t.d[2][0][0] == "0" else None
+
+    # advertised
+    le = LinEval(req, 1, sizes, None)
+    adv = {}
+
+    def on_edge(bb, tgt, t, state, env, trace):
+        lab = label_edge(req, t, tgt)
+        if lab is None:
+            return None
+        labels, forms = state
+        return (labels | {lab}, forms)
+
+    def on_exit(bb, state, rv, env, trace):
+        labels, forms = state
+        f = dict(forms).get(0)
+        if dict(labels).get("NZ") is False or dict(labels).get("Z") is True:
+            return  # total size 0: every count is 0 and nothing is carved
+        key = (dict(labels).get("H", False), dict(labels).get("V", False))
+        adv.setdefault(key, set()).add(f)
+
+    ex = Explorer(req, on_stmt=le.on_stmt, on_call=le.on_call, on_edge=on_edge, on_exit=on_exit)
+    ex.run((frozenset(), ()))
+    for k, v in adv.items():
+        chk.ob("C12-d", f"required_buffer_size case hinted={k[0]} variations={k[1]}: {sorted(v, key=str)[:2]}", None not in v and len(v) >= 1,
+               key=f"advertised|{k}", file=req.file, line=req.lo, fn=req.path,
+               detail="the advertised size is not a linear form in the outline's counts on some path (cannot be compared with the carving)")
+    chk.floor("C12-d", "advertised-size cases", len(adv), 4)
+    for mpath, is_ft in (("skrifa::outline::glyf::memory::FreeTypeOutlineMemory::<'a>::new", True),
+                         ("skrifa::outline::glyf::memory::HarfBuzzOutlineMemory::<'a>::new", False)):
+        m = chk.anchor("C12-d", mpath, facts.body(mpath))
+        carved = {}
+
+        def on_edge2(bb, tgt, t, state, env, trace, m=m):
+            lab = label_edge(m, t, tgt)
+            if lab is None:
+                return None
+            labels, seq = state
+            return (labels | {lab}, seq)
+
+        def on_call2(bb, t, state, env, trace, m=m):
+            if t.callee.endswith("memory::alloc_slice"):
+                labels, seq = state
+                ty = t.d["cargs"].strip("[]")
+                e = expr_of(m, t.args[1])
+                fld = None
+                if e[0] == "proj":
+                    for x in e[2]:
+                        if isinstance(x, tuple) and x[0] == "f" and x[2]:
+                            fld = x[2]
+                return [((labels, seq + ((fld, ty),)), None)]
+            return None
+
+        def on_exit2(bb, state, rv, env, trace, m=m):
+            if ret_class(m, rv) == "err":
+                return
+            labels, seq = state
+            key = (dict(labels).get("H", False), dict(labels).get("V", False))
+            carved.setdefault(key, set()).add(seq)
+
+        ex2 = Explorer(m, on_call=on_call2, on_edge=on_edge2, on_exit=on_exit2)
+        ex2.run((frozenset(), ()))
+        nm = mpath.split("::")[-3]
+        for key, seqs in sorted(carved.items()):
+            if not is_ft and key[0]:
+                continue  # the HarfBuzz layout has no hinted variant
+            for seq in seqs:
+                form = ()
+                ok_types = True
+                aligns = []
+                for fld, ty in seq:
+                    if ty not in sizes or fld is None:
+                        ok_types = False
+                        continue
+                    form = f_add(form, ((fld, sizes[ty][0]),))
+                    aligns.append(sizes[ty][1])
+                advs = adv.get(key if is_ft else (False, key[1]), set())
+                le_ok = ok_types and bool(advs)
+                why = ""
+                for a in advs:
+                    if a is None:
+                        le_ok = False
+                        continue
+                    ad = dict(a)
+                    slack = ad.get("1", 0)
+                    for fld, coeff in form:
+                        if coeff > ad.get(fld, 0):
+                            le_ok = False
+                            why = f"carves {coeff} bytes per `{fld}` but only {ad.get(fld, 0)} are advertised"
+                    if aligns and slack < max(aligns) and form:
+                        le_ok = False
+                        why = f"slack {slack} < max alignment {max(aligns)}"
+                # worst-case padding: track the guaranteed alignment g of the carve position
+                g, pad = 1, 0
+                for fld, ty in seq:
+                    if ty not in sizes:
+                        continue
+                    sz, al = sizes[ty]
+                    if al > g:
+                        pad += al - g
+                    p2 = sz & -sz if sz else al
+                    g = min(al, p2)
+                slack_min = min((dict(a).get("1", 0) for a in advs if a is not None), default=0)
+                chk.ob("C12-d", f"{nm} hinted={key[0]} variations={key[1]}: carves {form} <= advertised", le_ok,
+                       key=f"{mpath}|{key}|le", file=m.file, line=m.lo, fn=m.path,
+                       detail=f"a caller buffer of the advertised size is too small: {why or 'unknown element type / field'}")
+                if is_ft:
+                    chk.ob("C12-d", f"{nm} hinted={key[0]} variations={key[1]}: worst-case alignment padding {pad} <= advertised slack {slack_min} "
+                                    f"(alignments {aligns})", pad <= slack_min,
+                           key=f"{mpath}|{key}|padding", file=m.file, line=m.lo, fn=m.path,
+                           detail=f"carving order needs up to {pad} bytes of alignment padding but only {slack_min} are advertised: a buffer of "
+                                  f"the advertised size can be rejected depending on its address")
+                else:
+                    chk.notes.append(f"C12-d observation: {nm} variations={key[1]} carves alignments {aligns}: worst-case padding {pad} vs slack "
+                                     f"{slack_min}; covered only by the advertised-but-unused max_other_points term (value-level, not claimed)")
+        chk.floor("C12-d", f"carving cases of {nm}", len(carved), 2)
